@@ -52,6 +52,7 @@ from fortls.helper_functions import (
     strip_line_label,
     strip_strings,
 )
+from fortls.json_templates import diagnostic_json
 
 from .associate import Associate
 from .ast import FortranAST
@@ -1236,19 +1237,26 @@ class FortranFile:
             else:
                 COMMENT_LINE_MATCH = FRegex.FREE_COMMENT
             for i, line in enumerate(self.contents_split):
+                # These belong to this check, not to the parse: stored with the
+                # parse errors they would be reported once more on every check
                 if COMMENT_LINE_MATCH.match(line) is None:
                     if 0 < max_line_length < len(line):
-                        self.ast.add_error(
-                            msg_line, Severity.warn, i + 1, max_line_length, len(line)
+                        diagnostics.append(
+                            diagnostic_json(
+                                i, max_line_length, i, len(line), msg_line, Severity.warn
+                            )
                         )
                 else:
                     if 0 < max_comment_line_length < len(line):
-                        self.ast.add_error(
-                            msg_comment,
-                            Severity.warn,
-                            i + 1,
-                            max_comment_line_length,
-                            len(line),
+                        diagnostics.append(
+                            diagnostic_json(
+                                i,
+                                max_comment_line_length,
+                                i,
+                                len(line),
+                                msg_comment,
+                                Severity.warn,
+                            )
                         )
         errors, diags_ast = self.ast.check_file(obj_tree)
         diagnostics += diags_ast
